@@ -91,8 +91,6 @@ CONTRACTS = {
                               'returns_expr': 'gadj(self.gid, u, v)',
                               # a simple graph: adjacency is symmetric (has_edge(v, u) is the same question)
                               'ensures': ['gadj(self.gid, u, v) == gadj(self.gid, v, u)']},
-    (G_, 'GraphS.normalize'): {'assumed': 'Graph.normalize returns a cnfgen Graph unchanged', 'params': {'cls': 'any', 'G': 'obj:GraphS', 'varname': 'any'},
-                               'classmethod': True, 'returns_expr': 'G'},
     (F_, 'FormulaS.__init__'): {'assumed': 'formula_class() builds an empty formula of that class', 'params': {},
                                 'modifies': ['self.store', 'self._numvar'], 'ensures': ['self.store == cnil', 'self._numvar == 0']},
     (F_, 'FormulaS.new_variable'): {'assumed': 'group allocation (C11): one fresh variable', 'params': {'label': 'any'}, 'modifies': ['self._numvar'],
